@@ -198,7 +198,7 @@ fn c18(rng: &mut Rng, out: &mut Fails) {
           let mut f = Uniform::new(0., 1.); f.set_upper(5.); f.set_lower(2.);
           twin_check!(out, "Uniform::set_lower/set_upper", format!("{} Uniform(0,1).set_upper(5).set_lower(2)", h), f, Uniform::new(2., 5.), pts, pdf); }
         // Gamma / Beta / ChiSquared (cached samplers)
-        { let (a1, b1, a2, b2) = (rng.range(0.6, 5.), rng.range(0.3, 4.), rng.range(0.6, 9.), rng.range(0.3, 4.));
+        { let (a1, b1, a2, b2) = (rng.range(0.6, 5.), rng.range(0.6, 4.), rng.range(0.6, 9.), rng.range(0.6, 4.));
           let mut d = Gamma::new(a1, b1); d.set_alpha(a2); d.set_beta(b2);
           twin_check!(out, "Gamma::set_alpha/set_beta", format!("{} Gamma({},{}) -> ({},{})", h, a1, b1, a2, b2), d, Gamma::new(a2, b2), pts, pdf);
           let mut e = Gamma::new(a1, b1); e.update(&[a2, b2]);
